@@ -1353,6 +1353,10 @@ def compare(it, op, a, b):
     """python bool or z3 Bool"""
     from .interp import ClassVal, ExcClass, FuncVal, I as toI, R, SliceVal
 
+    from .interp import OpaqueText
+
+    if isinstance(a, OpaqueText) or isinstance(b, OpaqueText):
+        raise Unsupported("comparison of a formatted text that has symbolic parts")
     h = getattr(it, "compare_hook", None)
     if h is not None:
         r = h(it, op, a, b)
